@@ -275,6 +275,12 @@ func methodVariants() []string {
 	for _, m := range methodTable {
 		out = append(out, `"`+m.name+`"`)
 	}
+	// near misses of a registered name: they name NO method (a lookup that normalises the name - trims, folds case,
+	// strips control characters - would resolve them)
+	for _, base := range []string{"m0", "m1"} {
+		out = append(out, `"`+base+`\n"`, `"\r`+base+`"`, `"`+base[:1]+`\r\n`+base[1:]+`"`, `" `+base+`"`, `"`+base+` "`, `"`+strings.ToUpper(base)+`"`,
+			`"`+base+`\t"`, `"`+base+`\u0000"`, `"`+base[:1]+`\u006d`+base[1:]+`"`)
+	}
 	return out
 }
 
